@@ -104,18 +104,40 @@ func ruleEncodingTables(c *eng.Ctx) {
 	}
 	specs := []struct {
 		v   string
+		enc string
 		ref [256]rune
 		acc accept
 		doc string
 	}{
-		{"winAnsiTable", refFromCharmap(charmap.Windows1252), win, "Windows-1252 (x/text) + ISO 32000 Annex D"},
-		{"macRomanTable", refFromCharmap(charmap.Macintosh), mac, "Mac OS Roman (x/text) + ISO 32000 Annex D"},
-		{"standardEncodingTableData", standardEncodingRef(), std, "Adobe StandardEncoding (Annex D)"},
-		{"pdfDocTable", pdfDocEncodingRef(), pdf, "PDFDocEncoding (Annex D.3)"},
+		{"winAnsiTable", "WinAnsiEncoding", refFromCharmap(charmap.Windows1252), win, "Windows-1252 (x/text) + ISO 32000 Annex D"},
+		{"macRomanTable", "MacRomanEncoding", refFromCharmap(charmap.Macintosh), mac, "Mac OS Roman (x/text) + ISO 32000 Annex D"},
+		{"standardEncodingTableData", "StandardEncoding", standardEncodingRef(), std, "Adobe StandardEncoding (Annex D)"},
+		{"pdfDocTable", "PDFDocEncoding", pdfDocEncodingRef(), pdf, "PDFDocEncoding (Annex D.3)"},
 	}
 	for _, sp := range specs {
 		vals, node, err := c.P.ArrayVar("font", sp.v)
 		if err != nil || len(vals) != 256 {
+			// the table is not a constant literal (built by an initialiser, kept in another shape): what the encoding
+			// answers for each of the 256 codes is evaluated instead (GetEncoding(name).Decode(code), package
+			// initialisers included), and held to the same reference
+			if got, ok := evaluatedEncodingTable(c, sp.enc); ok {
+				fn := c.P.Func("font.GetEncoding")
+				for i := 0; i < 256; i++ {
+					key := fmt.Sprintf("font.%s[0x%02X]", sp.v, i)
+					okv := got[i] == sp.ref[i]
+					for _, a := range sp.acc[i] {
+						if got[i] == a {
+							okv = true
+						}
+					}
+					if okv {
+						c.Ok(R, key, fn.Pos(), fmt.Sprintf("U+%04X (evaluated)", got[i]))
+					} else {
+						c.Viol(R, key, fn.Pos(), fmt.Sprintf("code 0x%02X of %s decodes to U+%04X (evaluated), %s says U+%04X", i, sp.enc, got[i], sp.doc, sp.ref[i]))
+					}
+				}
+				continue
+			}
 			pos := token.NoPos
 			if node != nil {
 				pos = node.Pos()
@@ -161,6 +183,34 @@ func ruleEncodingTables(c *eng.Ctx) {
 		sort.Strings(bad)
 		c.Check(len(bad) == 0, R, "font."+v+"#anchors", node.Pos(), fmt.Sprintf("%d anchor entries agree", len(anchors[v])), "anchor entries differ: "+strings.Join(bad, ", "))
 	}
+}
+
+// evaluatedEncodingTable evaluates font.GetEncoding(name).Decode(code) for the 256 codes.
+func evaluatedEncodingTable(c *eng.Ctx, name string) ([256]rune, bool) {
+	var out [256]rune
+	get := c.P.Func("font.GetEncoding")
+	if get == nil || len(get.Params) != 1 {
+		return out, false
+	}
+	ev := eng.NewEvaluator()
+	ev.Steps = 4000000
+	enc, err := ev.Call(get, []any{name}, 0)
+	if err != nil {
+		return out, false
+	}
+	for i := 0; i < 256; i++ {
+		ev.Steps = 100000
+		r, err := ev.Method(get.Prog, enc, "Decode", int64(i))
+		if err != nil {
+			return out, false
+		}
+		v, ok := r.(int64)
+		if !ok {
+			return out, false
+		}
+		out[i] = rune(v)
+	}
+	return out, true
 }
 
 func ruleNameDispatch(c *eng.Ctx) {
